@@ -39,7 +39,7 @@ Funs == [
   full |-> {<<"ufunc", "add", <<"py", "pyint", 1>>>>, <<"ufunc", "self", 0>>, <<"func", "cumsum", 0>>, <<"func", "sort", 0>>,
             <<"func", "diff", 1>>, <<"func", "concat", 0>>, <<"func", "concat", -1>>},
   small |-> {<<"ufunc", "add", <<"py", "pyint", 1>>>>, <<"func", "cumsum", 0>>, <<"func", "concat", 0>>}]
-Reads == [full |-> {"repr", "str", "tolist", "sum", "len"}, small |-> {"repr", "len"}]
+Reads == [full |-> {"repr", "str", "tolist", "sum", "len", "unique", "cumsum", "pad", "colbroadcast", "getrow"}, small |-> {"repr", "len"}]
 
 Rec(st) == hist' = Append(hist, st)
 Init == HeapInit /\ hist = <<>>
